@@ -313,6 +313,220 @@ def check_alone_fields(ck, prog):
           "options.ext_flags = %s (LZMA_LZMA1EXT_ALLOW_EOPM = 1)" % flags, key="ALONE:eopm")
 
 
+def _u32_eval(n, env):
+    n = ex.strip(n)
+    k = n.get("k")
+    M = 0xFFFFFFFF
+    if k == "const":
+        return n["v"] & M
+    if k == "var":
+        return env[n["n"]]
+    if k == "mem":
+        return env[ex.show(n)]
+    if k == "bin":
+        a, b = _u32_eval(n["l"], env), _u32_eval(n["r"], env)
+        op = n["op"]
+        if op == "-":
+            return (a - b) & M
+        if op == "+":
+            return (a + b) & M
+        if op == "|":
+            return a | b
+        if op == "&":
+            return a & b
+        if op == "^":
+            return a ^ b
+        if op == ">>":
+            return a >> b if b < 32 else 0
+        if op == "<<":
+            return (a << b) & M if b < 32 else 0
+    if k == "un" and n["op"] == "~":
+        return ~_u32_eval(n["e"], env) & M
+    raise AnalysisBroken("alone_decode: dictionary-size heuristic uses an expression form that is not evaluated: %s" % ex.show(n))
+
+
+def check_alone_picky(ck, prog):
+    """The picky (auto-detection) heuristic accepts exactly the dictionary sizes 2^n and 2^n + 2^(n-1).  The code rounds
+    dict_size - 1 up with an OR/shift smear and compares; the smear `d |= d >> k ...` is the OR-linear operator
+    bit_i = OR_{j in S} d_(i+j) with S the set of subset sums of the shift amounts, so S decides the accepted set exactly:
+    S must be {0, 2, 3, ..., 31} (every distance except 1)."""
+    f = prog.fn("alone_decode", "alone_decoder.c")
+    ck.saw_function(f)
+    blk = None
+    for b in f.blocks.values():
+        t = b.term
+        if t and "cond" in t and len(b.succs) == 2:
+            c = ex.strip(t["cond"])
+            if c.get("k") == "bin" and c["op"] in ("!=", "==") and ex.show(c["r"]).endswith("options.dict_size") \
+                    and ex.strip(c["l"]).get("k") == "var":
+                blk, cmpn = b, c
+    if blk is None:
+        raise AnalysisBroken("alone_decode: the comparison of the rounded dictionary size vanished")
+    var = ex.strip(cmpn["l"])["n"]
+    DS = ex.show(cmpn["r"])
+    elems = [e for e in blk.elems if e is not None and any(x.get("k") in ("var", "decl") and x.get("n") == var
+                                                           for x in ex.walk(e))
+             and (e.get("k") in ("decl", "asg") or (e.get("k") == "un" and e.get("op", "").endswith(("++", "--"))))]
+
+    def run_code(x):
+        env = {DS: x}
+        for e in elems:
+            k = e.get("k")
+            if k == "decl" and e.get("n") == var:
+                env[var] = _u32_eval(e["init"], env)
+            elif k == "asg" and ex.strip(e["l"]).get("n") == var:
+                v = _u32_eval(e["r"], env)
+                op = e["op"]
+                cur = env.get(var, 0)
+                env[var] = {"=": v, "|=": cur | v, "&=": cur & v, "+=": (cur + v) & 0xFFFFFFFF,
+                            "-=": (cur - v) & 0xFFFFFFFF, "^=": cur ^ v,
+                            ">>=": cur >> v if v < 32 else 0, "<<=": (cur << v) & 0xFFFFFFFF}.get(op)
+                if env[var] is None:
+                    raise AnalysisBroken("alone_decode: operator %s on %s" % (op, var))
+            elif k == "un" and e["op"] in ("pre++", "post++") and ex.strip(e["e"]).get("n") == var:
+                env[var] = (env[var] + 1) & 0xFFFFFFFF
+            elif k == "un" and e["op"] in ("pre--", "post--") and ex.strip(e["e"]).get("n") == var:
+                env[var] = (env[var] - 1) & 0xFFFFFFFF
+            else:
+                raise AnalysisBroken("alone_decode: statement on %s that is not evaluated: %s" % (var, ex.show(e)[:60]))
+        eq = env[var] == x
+        return eq if cmpn["op"] == "!=" else not eq      # accepted <=> the reject edge is not taken
+
+    def ref(x):
+        if x == 0:
+            return False        # 0 - 1 smears to all ones, + 1 == 0 == x: see below, handled by the code the same way
+        n = x.bit_length() - 1
+        return x == 1 << n or (n >= 1 and x == (1 << n) + (1 << (n - 1)))
+    # structural route: the smear as a shift set
+    S = {0}
+    structural = True
+    for e in elems:
+        if e.get("k") == "asg" and e["op"] == "|=":
+            r = ex.strip(e["r"])
+            if r.get("k") == "bin" and r["op"] == ">>" and ex.strip(r["l"]).get("n") == var and ex.const_val(r["r"]) is not None:
+                kk = ex.const_val(r["r"])
+                S = {a for a in (S | {x + kk for x in S}) if a < 32}
+                continue
+            structural = False
+        elif e.get("k") == "decl":
+            i0 = ex.strip(e["init"])
+            if not (i0.get("k") == "bin" and i0["op"] == "-" and ex.const_val(i0["r"]) == 1 and ex.show(i0["l"]) == DS):
+                structural = False
+        elif e.get("k") == "un" and e["op"] in ("pre++", "post++"):
+            continue
+        else:
+            structural = False
+    SREF = {0} | set(range(2, 32))
+    cands = {0, 1, 2, 3, 0xFFFFFFFE}
+    for a in range(32):
+        cands.add(1 << a)
+        cands.add((1 << a) - 1)
+        for b in range(a):
+            cands.add((1 << a) | (1 << b))
+            for c in range(b):
+                cands.add((1 << a) | (1 << b) | (1 << c))
+    wit = None
+    for x in sorted(cands):
+        if x in (0, 0xFFFFFFFF):
+            continue        # 0: d wraps to 0 == x in code and in the reference construction; UINT32_MAX is exempted before
+        if run_code(x) != ref(x):
+            wit = x
+            break
+    if structural and S == SREF and wit is not None:
+        raise AnalysisBroken("alone_decode: shift set equals the reference but a sample differs (%#x)" % wit)
+    if structural:
+        ok = S == SREF
+    else:
+        if wit is None:
+            raise AnalysisBroken("alone_decode: the dictionary-size rounding is no longer an OR/shift smear and no "
+                                 "sample distinguishes it from the reference: cannot decide")
+        ok = False
+    ck.ob("C16-ALONE", "picky-dict-size-set", ok, common.where(f, cmpn),
+          "picky mode accepts exactly 2^n and 2^n + 2^(n-1): smear distance set = every distance except 1 "
+          "(%d sample sizes agree as well)" % len(cands) if ok else
+          "alone_decode(): in picky mode (auto-detection) the dictionary size %#x is %s by the code but %s by the .lzma "
+          "heuristic (2^n or 2^n + 2^(n-1)); smear distances %s" % (
+              wit if wit is not None else -1, "accepted" if wit is not None and run_code(wit) else "rejected",
+              "rejected" if wit is not None and run_code(wit) else "accepted",
+              "lack %s / add %s" % (sorted(SREF - S), sorted(S - SREF)) if structural else "not derivable"),
+          key="ALONE:picky-dict-size-set")
+
+
+def check_lzip_acct(ck, prog):
+    """.lz member size accounting: a header byte taken with in[(*in_pos)++] is counted in coder->member_size before the
+    function can return with a non-fatal code -- otherwise the Member Size check of the footer depends on where the
+    caller's buffers ended (LZMA_GET_CHECK is a non-fatal return as well)."""
+    f = prog.fn("lzip_decode", LZF)
+    ck.saw_function(f)
+    m = graph_for(prog, f, (), {}, None, False, resume=False)
+    g = m.g
+    nonfatal = {m.rets[x] for x in ("LZMA_OK", "LZMA_GET_CHECK", "LZMA_NO_CHECK", "LZMA_UNSUPPORTED_CHECK", "LZMA_STREAM_END")
+                if x in m.rets}
+
+    def is_consume(e):
+        for x in ex.walk(e):
+            if x.get("k") == "idx":
+                i = ex.strip(x.get("i"))
+                if i is not None and i.get("k") == "un" and i["op"] in ("post++", "pre++") and "in_pos" in ex.show(i["e"]):
+                    return True
+        return False
+
+    def writes_ms(e):
+        # unit increments only: an aggregate `member_size += *in_pos - in_start` counts what came after in_start
+        for (l, r, op, nd) in ex.writes(e):
+            if ex.show(l).endswith("->member_size") and op == "+=" and ex.const_val(r) == 1:
+                return True
+        for x in ex.walk(e):
+            if x.get("k") == "un" and x["op"] in ("pre++", "post++") and ex.show(x["e"]).endswith("->member_size"):
+                return True
+        return False
+
+    def samples_pos(e):
+        # a local that records the current input position starts a region accounted as a difference of positions
+        if e.get("k") == "decl" and e.get("init") is not None and ex.show(e["init"]).replace("(", "").replace(")", "") == "*in_pos":
+            return True
+        for (l, r, op, nd) in ex.writes(e):
+            if op == "=" and r is not None and ex.strip(l).get("k") == "var" and \
+                    ex.show(r).replace("(", "").replace(")", "") == "*in_pos":
+                return True
+        return False
+    sampb = {b.id for b, i, e in f.iter_elems() if samples_pos(e)}
+    if not sampb:
+        raise AnalysisBroken("lzip_decode: `in_start = *in_pos` (start of the region accounted by difference) not found")
+    msb = {b.id for b, i, e in f.iter_elems() if writes_ms(e)}
+    n = 0
+    for b in f.blocks.values():
+        for i, e in enumerate(b.elems):
+            if e is None or not is_consume(e):
+                continue
+            n += 1
+            nm = e.get("n") if e.get("k") == "decl" else (ex.show(e["l"]).split("->")[-1] if e.get("k") == "asg" else str(n))
+            same = any(writes_ms(b.elems[j]) for j in range(i + 1, len(b.elems)) if b.elems[j] is not None)
+            path = None
+            if not same:
+                src = [d for nd in g.nodes if nd[0] == b.id for (d, lab) in g.succ.get(nd, ())]
+
+                def dstp(node):
+                    if node[0] in sampb:
+                        return "start a region counted as `*in_pos - in_start` (line %s)" % (
+                            f.blocks[node[0]].first_line() if hasattr(f.blocks[node[0]], "first_line") else "?")
+                    if node[0] != f.exit:
+                        return None
+                    rv = g.get(node[1], "$ret")
+                    hit = set(rv or ()) & nonfatal
+                    return ("return " + ",".join(m.retnames[v] for v in sorted(hit))) if hit else None
+                path, hit = guard.cut_reach(g, src, set(), dstp, cut_blocks=msb)
+            ck.ob("C16-LZIP", "member-size:%s" % nm, path is None, common.where(f, e),
+                  "lzip_decode: the byte consumed at line %s is added to member_size before any non-fatal return" % ex.line(e)
+                  if path is None else
+                  "lzip_decode(): the byte consumed by `%s` (line %s) is not yet counted in coder->member_size when the "
+                  "function can `%s` (path %s): if the caller continues from there the Member Size field of the footer "
+                  "no longer matches" % (ex.show(e)[:50], ex.line(e), hit, m.describe_path(path)),
+                  key="LZIP:member-size:%s" % nm)
+    if n < 2:
+        raise AnalysisBroken("lzip_decode: fewer than 2 single-byte reads in[(*in_pos)++] found")
+
+
 def check_xz_magic(ck, prog, prog_all):
     ck.rule("C16-XZ", "xz's format sniffers use the same magic bytes as liblzma")
     hdr = prog.glob("lzma_header_magic", "stream_flags_common.c")
@@ -356,6 +570,8 @@ def run(ck):
     ck.rule("C16-ALONE", ".lzma header layout and picky-only heuristics; auto SEQ_FINISH rules")
     evaluate(ck, prog, "C16-ALONE", TABLE)
     check_alone_fields(ck, prog)
+    check_alone_picky(ck, prog)
+    check_lzip_acct(ck, prog)
     from . import C06
     C06.check_resume(ck, prog, RULE="C16-RESUME", only_files={"lzma_decoder.c", "lz_decoder.c", "alone_decoder.c", "lzip_decoder.c", "auto_decoder.c", "microlzma_decoder.c"}, floor=5)
     # re-use and re-entry of the .lzma / .lz / auto decoders
@@ -372,7 +588,7 @@ def run(ck):
     ck.rule("C16-READFIRST", ".lzma/.lz/auto decoders: what the coding function can read before storing to it is stored by the init function on every path returning LZMA_OK")
     reinit.check_read_first(ck, prog, "C16-READFIRST", files=FILES)
     ck.floor("C16-READFIRST", 12)
-    ck.floor("C16-ALONE", 8)
+    ck.floor("C16-ALONE", 9)
     prog_xz = common.program(ck, ("xz",), files=("/coder.c",))
     check_xz_magic(ck, prog, prog_xz)
     ck.floor("C16-XZ", 4)
